@@ -331,8 +331,27 @@ impl TypeChecker {
 
     /// Ensure imported items are public in the dependency module.
     fn validate_import_visibility(&mut self, import: &ImportDecl, span: Span) {
-        let ImportKind::From { module, items } = &import.kind else {
-            return;
+        // `from m import a, b` names the items directly; Rust-style `import m::a` names one item as the last
+        // path segment. Both are subject to the same visibility rule.
+        let rust_style_storage;
+        let (module, items): (&ImportPath, &[ImportItem]) = match &import.kind {
+            ImportKind::From { module, items } => (module, items.as_slice()),
+            ImportKind::Module(path) if path.segments.len() > 1 => {
+                let n = path.segments.len();
+                rust_style_storage = (
+                    ImportPath {
+                        parent_levels: path.parent_levels,
+                        is_absolute: path.is_absolute,
+                        segments: path.segments[..n - 1].to_vec(),
+                    },
+                    [ImportItem {
+                        name: path.segments[n - 1].clone(),
+                        alias: import.alias.clone(),
+                    }],
+                );
+                (&rust_style_storage.0, rust_style_storage.1.as_slice())
+            }
+            _ => return,
         };
 
         // Only check modules that were pre-imported; skip std and unresolved ones.
